@@ -54,11 +54,14 @@ def gen_scenario(rng, profile=None):
         "screen": p.get("screen", rng.choice([0, 0, 1, 3])),
         "pattern": p.get("pattern", rng.random() < 0.2),
         "wall": -3,
+        "keep_aux": False,
     }
     if scn["delete_old"]:
         scn["delete_old_all"] = p.get("delete_old_all", rng.random() < 0.5)
     scn["plan"] = p.get("plan") or [{"inp": "infretis.toml", "steps": steps}]
+    scn["keep_aux"] = p.get("keep_aux", rng.random() < 0.15)    # output.keep_traj_fnames = [".aux"]
     if scn["engine"] == "turtlemd":
+        scn["keep_aux"] = False
         # the repository's double-well example: 8 interfaces, real TurtleMD integrators
         scn["n_intf"] = 8
         scn["moves"] = ["sh", "sh"] + [rng.choice(["sh", "wf"]) for _ in range(6)]
@@ -119,6 +122,9 @@ def build_config(scn):
     }
     eng = {"class": "LatticeEngine", "module": LATTICE_MODULE, "wall": scn["wall"],
            "timestep": 1.0, "subcycles": 1}
+    if scn.get("keep_aux"):
+        eng["aux"] = True
+        cfg["output"]["keep_traj_fnames"] = [".aux"]
     if scn["engine"] == "lattice":
         cfg["engine"] = dict(eng)
         if scn["multi_engine"]:
